@@ -153,7 +153,12 @@ impl ShellEnvironment {
             HashMap::with_capacity(self.entry_count);
 
         for (_, var_map) in self.scopes.iter().rev() {
-            for (name, var) in var_map.iter().filter(|(_, v)| v.is_exported()) {
+            // A declared-but-unset variable has nothing to hand to a child and does not
+            // hide an exported variable of the same name further down.
+            for (name, var) in var_map
+                .iter()
+                .filter(|(_, v)| v.is_exported() && v.value().is_set())
+            {
                 // Only insert the variable if it hasn't been seen yet.
                 if let hash_map::Entry::Vacant(entry) = visible_vars.entry(name) {
                     entry.insert(var);
